@@ -41,6 +41,8 @@ def group_spec(draw, cp='maybe', with_range='maybe', H='maybe', S='maybe', lo=No
         a = min(Ts + [T_ref]) - draw(st.sampled_from([0.0, 0.0, 1.0, 50.0, 150.0]))
         b = max(Ts + [T_ref]) + draw(st.sampled_from([0.0, 0.0, 1.0, 100.0, 700.0]))
         rng = [max(1.0, a), b]
+        if draw(st.integers(0, 5)) == 0:
+            rng[0] = 0.0              # 'valid from 0 K' is a range people write
     hv = {'yes': True, 'no': False}.get(H)
     if hv is None:
         hv = draw(st.integers(0, 5)) > 0
